@@ -45,6 +45,16 @@ def view(sess, t, with_queries=True):
                 q[f"{sname}@{sver}@{s}"] = sorted(n.name for n in node.metador.query(sname, sver))
             except Exception as e:  # noqa: BLE001
                 q[f"{sname}@{sver}@{s}"] = f"raises {type(e).__name__}"
+    # lookups that miss: absent names, and paths that lead through a dataset
+    dsets = [p for p in paths if ud[p][0] == "d"][:2]
+    for base_p in ["/zz-absent", "/zz/absent"] + [d + "/x" for d in dsets] + [d + "/x/y" for d in dsets[:1]]:
+        for how, fn in (("get", lambda: mc.get(base_p)), ("get_default", lambda: mc.get(base_p, 42)), ("in", lambda: base_p in mc),
+                        ("rel_get", lambda: mc.get(base_p.lstrip("/"), "dflt"))):
+            try:
+                r_ = fn()
+                q[f"miss:{how}:{base_p}"] = r_ if isinstance(r_, (int, str, bool, type(None))) else f"<{type(r_).__name__}>"
+            except Exception as e:  # noqa: BLE001
+                q[f"miss:{how}:{base_p}"] = f"raises {type(e).__name__}"
     return dict(data=ud, meta=md, schemas=sc, queries=q)
 
 
